@@ -92,16 +92,15 @@ var c06TriggerName = map[string]string{
 	"P2": "HighestRestartCount(pod) > *AutoPause.MaxRestarts",
 }
 
-func (c *c06Ctx) threshold(v ssa.Value) string {
-	v = stripConv(v)
+func (c *c06Ctx) threshold(v ssa.Value, env *envT) string {
 	switch {
-	case allPathsEnd(v, "AutoFail", "MaxRestarts"):
+	case allPathsEndE(v, env, "AutoFail", "MaxRestarts"):
 		return "F1"
-	case allPathsEnd(v, "AutoPause", "MaxRestarts"):
+	case allPathsEndE(v, env, "AutoPause", "MaxRestarts"):
 		return "P2"
-	case allPathsEnd(v, "AutoFail", "MaxRestartsDuration", "Duration"):
+	case allPathsEndE(v, env, "AutoFail", "MaxRestartsDuration", "Duration"):
 		return "F2"
-	case allPathsEnd(v, "AutoFail", "CanaryTimeout", "Duration"):
+	case allPathsEndE(v, env, "AutoFail", "CanaryTimeout", "Duration"):
 		return "F3"
 	}
 	return ""
@@ -115,9 +114,10 @@ func c06CondCall(v ssa.Value) *ssa.Call {
 	return nil
 }
 
-// measure classifies the measured operand of a trigger comparison.
-func (c *c06Ctx) measure(v ssa.Value) (string, *ssa.Call) {
-	v = stripConv(v)
+// measure classifies the measured operand of a trigger comparison. env binds the parameters of a
+// repository helper in which the comparison may have been found.
+func (c *c06Ctx) measure(v ssa.Value, env *envT) (string, *ssa.Call) {
+	v, env = stripConvE(v, env)
 	if e, ok := v.(*ssa.Extract); ok && e.Index == 0 {
 		if call, ok := e.Tuple.(*ssa.Call); ok && calleeName(&call.Call) == pkgPodUtils+".HighestRestartCount" {
 			return "count", call
@@ -128,7 +128,7 @@ func (c *c06Ctx) measure(v ssa.Value) (string, *ssa.Call) {
 		return "", nil
 	}
 	a, b := call.Call.Args[0], call.Call.Args[1]
-	rb, okb := singleRootWithSuffix(b, "LastTransitionTime", "Time")
+	rb, okb := singleRootWithSuffixE(b, env, "LastTransitionTime", "Time")
 	if !okb {
 		return "", nil
 	}
@@ -136,12 +136,12 @@ func (c *c06Ctx) measure(v ssa.Value) (string, *ssa.Call) {
 	if cb == nil {
 		return "", nil
 	}
-	if ra, oka := singleRootWithSuffix(a, "LastUpdateTime", "Time"); oka {
+	if ra, oka := singleRootWithSuffixE(a, env, "LastUpdateTime", "Time"); oka {
 		if ca := c06CondCall(ra); ca != nil && c.k.key(ca) == c.k.key(cb) {
 			return "restartSpan", cb
 		}
 	}
-	if c.now != nil && stripConv(a) == ssa.Value(c.now) {
+	if c.isNow(a, env) {
 		return "canaryAge", cb
 	}
 	return "", nil
@@ -151,15 +151,18 @@ func isResultFlagLoad(v ssa.Value, field string) bool {
 	return isLoadOfField(v, pkgStrategy, "Result", field)
 }
 
-// atoms reads the path-local facts of one loop iteration.
+// atoms reads the path-local facts of one loop iteration. Facts about the boolean result of a
+// repository helper are expanded into the facts the helper's own path table implies, read with
+// the helper's parameters bound to the call-site arguments.
 func (c *c06Ctx) atoms(p *Path) *c06Atoms {
 	a := &c06Atoms{cmp: map[string]c06Cmp{}, thrNil: map[string]tri{}, condNil: map[string]tri{}}
-	for _, f := range p.Facts {
+	for _, xf := range expandFacts(c.r.Prog, factList(p.Facts), nil, 0) {
+		f, env := xf.Fact, xf.env
 		v := f.V
 		// ordered comparisons
 		if big, small, strict, ok := factOrder(f); ok {
-			if ts := c.threshold(small); ts != "" { // measured (big) > / >= threshold (small)
-				role, _ := c.measure(big)
+			if ts := c.threshold(small, env); ts != "" { // measured (big) > / >= threshold (small)
+				role, _ := c.measure(big, env)
 				if role == c06Expected[ts] {
 					x := a.cmp[ts]
 					if strict {
@@ -171,8 +174,8 @@ func (c *c06Ctx) atoms(p *Path) *c06Atoms {
 				} else {
 					a.notes = append(a.notes, fmt.Sprintf("threshold of %s is compared with %s, not with its documented measured value", ts, describeVal(big)))
 				}
-			} else if tb := c.threshold(big); tb != "" { // threshold (big) > / >= measured (small): refutes measured > threshold
-				role, _ := c.measure(small)
+			} else if tb := c.threshold(big, env); tb != "" { // threshold (big) > / >= measured (small): refutes measured > threshold
+				role, _ := c.measure(small, env)
 				if role == c06Expected[tb] {
 					x := a.cmp[tb]
 					x.refuted = true
@@ -190,14 +193,15 @@ func (c *c06Ctx) atoms(p *Path) *c06Atoms {
 				o = y
 			}
 			switch {
-			case allPathsEnd(o, "AutoFail", "MaxRestartsDuration"):
+			case allPathsEndE(o, env, "AutoFail", "MaxRestartsDuration"):
 				a.thrNil["F2"] = triOf(f.Pol)
-			case allPathsEnd(o, "AutoFail", "CanaryTimeout"):
+			case allPathsEndE(o, env, "AutoFail", "CanaryTimeout"):
 				a.thrNil["F3"] = triOf(f.Pol)
-			case allPathsEnd(o, "AutoPause", "MaxSlowStartDuration"):
+			case allPathsEndE(o, env, "AutoPause", "MaxSlowStartDuration"):
 				a.slowNil = triOf(f.Pol)
 			default:
-				if cc := c06CondCall(o); cc != nil {
+				ov, _ := stripConvE(o, env)
+				if cc := c06CondCall(ov); cc != nil {
 					kk := c.k.key(cc)
 					for _, t := range []string{"F2", "F3"} {
 						if c.condKey[t] == kk {
@@ -208,20 +212,20 @@ func (c *c06Ctx) atoms(p *Path) *c06Atoms {
 			}
 			continue
 		}
-		sv := stripConv(v)
+		sv, senv := stripConvE(v, env)
 		switch {
-		case isResultFlagLoad(v, "IsFailed"):
+		case isResultFlagLoad(v, "IsFailed") && env == nil:
 			a.alreadyFailed = triOf(f.Pol)
-		case isResultFlagLoad(v, "IsUnpaused"):
+		case isResultFlagLoad(v, "IsUnpaused") && env == nil:
 			a.unpaused = triOf(f.Pol)
-		case allPathsEnd(sv, "AutoFail", "Enabled"):
+		case allPathsEndE(sv, senv, "AutoFail", "Enabled"):
 			a.failEnabled = triOf(f.Pol)
-		case allPathsEnd(sv, "AutoPause", "Enabled"):
+		case allPathsEndE(sv, senv, "AutoPause", "Enabled"):
 			a.pauseEnabled = triOf(f.Pol)
 		default:
 			if e, ok := sv.(*ssa.Extract); ok && e.Index == 0 {
 				if call, ok := e.Tuple.(*ssa.Call); ok && calleeName(&call.Call) == pkgPodUtils+".CannotStart" {
-					if c.rootKey(call.Call.Args[0]) == c.podKey {
+					if c.rootKey(call.Call.Args[0], senv) == c.podKey {
 						a.cs = triOf(f.Pol)
 					} else {
 						a.notes = append(a.notes, "CannotStart is applied to another pod than HighestRestartCount")
@@ -231,17 +235,17 @@ func (c *c06Ctx) atoms(p *Path) *c06Atoms {
 			if call, ok := sv.(*ssa.Call); ok {
 				switch calleeName(&call.Call) {
 				case pkgPodUtils + ".PendingCreate":
-					if c.rootKey(call.Call.Args[0]) == c.podKey {
+					if c.rootKey(call.Call.Args[0], senv) == c.podKey {
 						a.pc = triOf(f.Pol)
 					} else {
 						a.notes = append(a.notes, "PendingCreate is applied to another pod than HighestRestartCount")
 					}
 				case "(time.Time).After":
-					if c.isNow(call.Call.Args[0]) && c.isSlowDeadline(call.Call.Args[1]) {
+					if c.isNow(call.Call.Args[0], senv) && c.isSlowDeadline(call.Call.Args[1], senv) {
 						a.slowExceeded = triOf(f.Pol)
 					}
 				case "(time.Time).Before":
-					if c.isNow(call.Call.Args[1]) && c.isSlowDeadline(call.Call.Args[0]) {
+					if c.isNow(call.Call.Args[1], senv) && c.isSlowDeadline(call.Call.Args[0], senv) {
 						a.slowExceeded = triOf(f.Pol)
 					}
 				}
@@ -252,30 +256,33 @@ func (c *c06Ctx) atoms(p *Path) *c06Atoms {
 }
 
 // rootKey keys a value by the root of its access path (a loaded element and its address share it).
-func (c *c06Ctx) rootKey(v ssa.Value) string {
-	ps := pathsOf(stripConv(v))
+func (c *c06Ctx) rootKey(v ssa.Value, env *envT) string {
+	ps := pathsOfE(v, env)
 	if len(ps) == 1 && len(ps[0].fields) == 0 {
 		return c.k.key(ps[0].root)
 	}
-	return c.k.key(v)
+	sv, _ := stripConvE(v, env)
+	return c.k.key(sv)
 }
 
-func (c *c06Ctx) isNow(v ssa.Value) bool {
-	return c.now != nil && stripConv(v) == ssa.Value(c.now)
+func (c *c06Ctx) isNow(v ssa.Value, env *envT) bool {
+	sv, _ := stripConvE(v, env)
+	return c.now != nil && sv == ssa.Value(c.now)
 }
 
-// isSlowDeadline: pod.Status.StartTime.Time.Add(AutoPause.MaxSlowStartDuration.Duration) for the evaluated pod.
-func (c *c06Ctx) isSlowDeadline(v ssa.Value) bool {
-	call, ok := stripConv(v).(*ssa.Call)
+// isSlowDeadline: pod.Status.StartTime.Time.Add(AutoPause.MaxSlowStartDuration.Duration) for the
+// evaluated pod, possibly held in a local of a helper.
+func (c *c06Ctx) isSlowDeadline(v ssa.Value, env *envT) bool {
+	sv, senv := stripConvE(v, env)
+	call, ok := sv.(*ssa.Call)
 	if !ok || calleeName(&call.Call) != "(time.Time).Add" || len(call.Call.Args) != 2 {
 		return false
 	}
-	root, okr := singleRootWithSuffix(call.Call.Args[0], "Status", "StartTime", "Time")
+	root, okr := singleRootWithSuffixE(call.Call.Args[0], senv, "Status", "StartTime", "Time")
 	if !okr || c.k.key(root) != c.podKey {
-		_ = root
 		return false
 	}
-	return allPathsEnd(stripConv(call.Call.Args[1]), "AutoPause", "MaxSlowStartDuration", "Duration")
+	return allPathsEndE(call.Call.Args[1], senv, "AutoPause", "MaxSlowStartDuration", "Duration")
 }
 
 func describeVal(v ssa.Value) string {
@@ -425,7 +432,7 @@ func c06Evaluation(c *c06Ctx) {
 	podKeys := map[string]bool{}
 	for _, ci := range callsIn(eval) {
 		if call, ok := ci.(*ssa.Call); ok && calleeName(&call.Call) == pkgPodUtils+".HighestRestartCount" {
-			podKeys[c.rootKey(call.Call.Args[0])] = true
+			podKeys[c.rootKey(call.Call.Args[0], nil)] = true
 		}
 	}
 	if len(podKeys) != 1 {
@@ -447,11 +454,11 @@ func c06Evaluation(c *c06Ctx) {
 				continue
 			}
 			for _, pair := range [][2]ssa.Value{{bo.X, bo.Y}, {bo.Y, bo.X}} {
-				t := c.threshold(pair[0])
+				t := c.threshold(pair[0], nil)
 				if t != "F2" && t != "F3" {
 					continue
 				}
-				if role, cc := c.measure(pair[1]); role == c06Expected[t] && cc != nil {
+				if role, cc := c.measure(pair[1], nil); role == c06Expected[t] && cc != nil {
 					c.condKey[t] = c.k.key(cc)
 					c.condCall[t] = cc
 				}
@@ -979,10 +986,35 @@ func shortSet(s factSet) string {
 }
 
 // c06Predicates implements R8.
+// c06TruePathFacts returns, for every path of fn on which its first result can be true, the facts
+// of the path expanded through repository helpers (with a non-constant result contributing itself).
+func c06TruePathFacts(r *Run, fn *ssa.Function) (out [][]xfact, rets []*Path, ok bool) {
+	paths, k, okp := funcPaths(fn, 5000)
+	r.paths += len(paths)
+	if !okp {
+		return nil, nil, false
+	}
+	for _, p := range paths {
+		ret := returnOf(p.Blocks[len(p.Blocks)-1])
+		res := p.Resolve(ret.Results[0])
+		facts := factList(p.Facts)
+		if b, isC := constBool(res); isC {
+			if !b {
+				continue
+			}
+		} else {
+			facts = append(facts, k.normCond(res, true)...)
+		}
+		out = append(out, expandFacts(r.Prog, facts, nil, 0))
+		rets = append(rets, p)
+	}
+	return out, rets, true
+}
+
 func c06Predicates(r *Run) {
-	waitingNil := func(v ssa.Value, _ string) bool {
-		x, y, ok := eqOperands(v)
-		if !ok {
+	waitingNil := func(xf xfact) bool {
+		x, y, ok := eqOperands(xf.V)
+		if !ok || xf.Pol {
 			return false
 		}
 		o := x
@@ -991,37 +1023,75 @@ func c06Predicates(r *Run) {
 		} else if !isNilConst(y) {
 			return false
 		}
-		return allPathsEnd(o, "State", "Waiting")
+		return allPathsEndE(o, xf.env, "State", "Waiting")
 	}
-	isWaitingReason := func(v ssa.Value) bool { return allPathsEnd(stripConv(v), "State", "Waiting", "Reason") }
+	isWaitingReason := func(v ssa.Value, env *envT) bool { return allPathsEndE(v, env, "State", "Waiting", "Reason") }
+	// a value is the waiting reason also when it is the string result of a helper that returns
+	// State.Waiting.Reason on every path where it returns something else than the empty string
+	var isWaitingReasonVal func(v ssa.Value, env *envT, depth int) bool
+	isWaitingReasonVal = func(v ssa.Value, env *envT, depth int) bool {
+		if isWaitingReason(v, env) {
+			return true
+		}
+		sv, senv := stripConvE(v, env)
+		e, isE := sv.(*ssa.Extract)
+		if !isE || depth > 2 {
+			return false
+		}
+		call, isC := e.Tuple.(*ssa.Call)
+		if !isC {
+			return false
+		}
+		h := calleeOfE(&call.Call, senv)
+		if h == nil || !r.Prog.IsRuleSite(h) {
+			return false
+		}
+		hp, _, okh := cachedFuncPaths(h)
+		if !okh {
+			return false
+		}
+		henv := bindArgs(h, call.Call.Args, senv)
+		n := 0
+		for _, q := range hp {
+			ret := returnOf(q.Blocks[len(q.Blocks)-1])
+			if ret == nil || e.Index >= len(ret.Results) {
+				return false
+			}
+			rv := q.Resolve(ret.Results[e.Index])
+			if cs, isConst := constString(rv); isConst && cs == "" {
+				continue
+			}
+			n++
+			if !isWaitingReasonVal(rv, henv, depth+1) {
+				return false
+			}
+		}
+		return n > 0
+	}
 
-	// CannotStart
 	cs := r.Prog.Func(pkgPodUtils, "CannotStart")
 	pc := r.Prog.Func(pkgPodUtils, "PendingCreate")
 	if cs == nil || pc == nil {
 		r.Fatal("anchor %s.CannotStart / PendingCreate not found", pkgPodUtils)
 		return
 	}
+	// CannotStart
 	var member, conv *ssa.Function
-	paths, _, ok := funcPaths(cs, 5000)
-	r.paths += len(paths)
+	tfacts, tpaths, ok := c06TruePathFacts(r, cs)
 	if !ok {
 		r.Undecided("C06.R8", "CannotStart table", r.Prog.Pos(cs.Pos()), shortFunc(cs), "path cap exceeded")
 	}
-	nTrue := 0
 	okAll, detail := true, ""
-	for _, p := range paths {
-		ret := returnOf(p.Blocks[len(p.Blocks)-1])
-		res := p.Resolve(ret.Results[0])
-		if b, isC := constBool(res); isC && !b {
-			continue
-		}
-		nTrue++
-		hasWaiting := p.Has(false, waitingNil)
+	for i, xfs := range tfacts {
+		p := tpaths[i]
+		hasWaiting := false
 		var m *ssa.Function
-		for _, f := range p.Facts {
-			if call, isCall := f.V.(*ssa.Call); isCall && f.Pol && len(call.Call.Args) == 1 && isWaitingReason(call.Call.Args[0]) {
-				if g := staticCallee(&call.Call); g != nil && r.Prog.IsRuleSite(g) {
+		for _, xf := range xfs {
+			if waitingNil(xf) {
+				hasWaiting = true
+			}
+			if call, isCall := xf.V.(*ssa.Call); isCall && xf.Pol && len(call.Call.Args) == 1 && isWaitingReason(call.Call.Args[0], xf.env) {
+				if g := calleeOfE(&call.Call, xf.env); g != nil && r.Prog.IsRuleSite(g) {
 					m = g
 				}
 			}
@@ -1035,39 +1105,41 @@ func c06Predicates(r *Run) {
 			okAll, detail = false, "two different membership predicates"
 		}
 		member = m
+		ret := returnOf(p.Blocks[len(p.Blocks)-1])
 		if len(ret.Results) > 1 {
-			if call, isCall := stripConv(p.Resolve(ret.Results[1])).(*ssa.Call); isCall && len(call.Call.Args) == 1 && isWaitingReason(call.Call.Args[0]) {
+			if call, isCall := stripConv(p.Resolve(ret.Results[1])).(*ssa.Call); isCall && len(call.Call.Args) == 1 && isWaitingReasonVal(call.Call.Args[0], nil, 0) {
 				conv = staticCallee(&call.Call)
 			}
 		}
 	}
-	if nTrue == 0 {
+	if len(tfacts) == 0 {
 		okAll, detail = false, "no path returns true"
 	}
 	r.Check("C06.R8", "CannotStart true only for a waiting container with a cannot-start reason", r.Prog.Pos(cs.Pos()), shortFunc(cs),
 		"true only with State.Waiting != nil and State.Waiting.Reason in the cannot-start set", okAll, detail)
 
 	// PendingCreate
-	paths, _, ok = funcPaths(pc, 5000)
-	r.paths += len(paths)
-	nTrue, okAll, detail = 0, ok, ""
-	for _, p := range paths {
-		ret := returnOf(p.Blocks[len(p.Blocks)-1])
-		res := p.Resolve(ret.Results[0])
-		if b, isC := constBool(res); isC && !b {
-			continue
+	tfacts, tpaths, ok = c06TruePathFacts(r, pc)
+	okAll, detail = ok, ""
+	for i, xfs := range tfacts {
+		hasWaiting, creating := false, false
+		for _, xf := range xfs {
+			if waitingNil(xf) {
+				hasWaiting = true
+			}
+			env := xf.env
+			if xf.Pol && isEqCompare(xf.V, func(v ssa.Value) bool { return isWaitingReason(v, env) }, isConstStringVal("ContainerCreating")) {
+				if bo, isB := xf.V.(*ssa.BinOp); isB && bo.Op == token.EQL || isB && bo.Op == token.NEQ {
+					creating = true
+				}
+			}
 		}
-		nTrue++
-		hasWaiting := p.Has(false, waitingNil)
-		creating := p.Has(true, func(v ssa.Value, _ string) bool {
-			return isEqCompare(v, isWaitingReason, isConstStringVal("ContainerCreating"))
-		})
-		if _, isC := constBool(res); !isC || !hasWaiting || !creating {
+		if !hasWaiting || !creating {
 			okAll = false
-			detail = "a path returns true without State.Waiting != nil ∧ State.Waiting.Reason == \"ContainerCreating\": " + shortFacts(p)
+			detail = "a path returns true without State.Waiting != nil ∧ State.Waiting.Reason == \"ContainerCreating\": " + shortFacts(tpaths[i])
 		}
 	}
-	if nTrue == 0 {
+	if len(tfacts) == 0 {
 		okAll, detail = false, "no path returns true"
 	}
 	r.Check("C06.R8", "PendingCreate true only for a container waiting with ContainerCreating", r.Prog.Pos(pc.Pos()), shortFunc(pc),
@@ -1156,7 +1228,12 @@ func c06SetOfMembership(r *Run, m *ssa.Function) map[string]bool {
 	if g == nil {
 		return nil
 	}
-	// the set is assigned once, in the package initialiser, from a map literal with constant keys
+	return c06GlobalSetKeys(g)
+}
+
+// c06GlobalSetKeys reads the constant keys of a package-level map that is assigned once, in the
+// package initialiser, from a map literal, and never updated afterwards.
+func c06GlobalSetKeys(g *ssa.Global) map[string]bool {
 	set := map[string]bool{}
 	nStores := 0
 	for _, mem := range g.Pkg.Members {
@@ -1237,6 +1314,24 @@ func c06KeptReasons(r *Run, conv *ssa.Function) (kept map[string]bool, all bool,
 		found := false
 		for _, f := range p.Facts {
 			if !f.Pol {
+				continue
+			}
+			// membership in a package-level set of kept reasons: `_, known := set[arg]`
+			if e, isE := f.V.(*ssa.Extract); isE && e.Index == 1 {
+				if lk, isL := e.Tuple.(*ssa.Lookup); isL && isArg(lk.Index) {
+					if ld, isLd := lk.X.(*ssa.UnOp); isLd {
+						if gg, isG := ld.X.(*ssa.Global); isG {
+							keys := c06GlobalSetKeys(gg)
+							if keys == nil {
+								return nil, false, false
+							}
+							for kk := range keys {
+								kept[kk] = true
+							}
+							found = true
+						}
+					}
+				}
 				continue
 			}
 			x, y, okE := eqOperands(f.V)
@@ -1337,39 +1432,25 @@ func c06Wire(c *c06Ctx, reach map[*ssa.Function]bool) {
 	found, n := false, 0
 	var pos string
 	all := repoFuncSet(r.Prog)
+	sites := condWriteSites(all)
 	for _, ci := range callSitesOf(entry, all) {
 		n++
 		pos = r.Prog.Pos(ci.Pos())
 		okSite := false
-		for _, in := range ci.Block().Instrs {
-			if in == ssa.Instruction(ci) {
-				break
-			}
-			call, ok := in.(*ssa.Call)
-			if !ok || calleeName(&call.Call) != pkgERSCond+".UpdateExtendedDaemonSetReplicaSetStatusCondition" {
+		for _, site := range sites {
+			if site.fn() != ci.Parent() || !site.typOK || site.typ != rt || rt == "" {
 				continue
 			}
-			t, _ := condTypeConst(call)
-			st, _ := constString(call.Call.Args[3])
-			if t == rt && rt != "" && st == "True" && hasPathSuffix(call.Call.Args[0], "NewStatus") {
-				okSite = true
+			if st, _ := constString(site.status()); st != "True" {
+				continue
 			}
-		}
-		// or: a dominating block
-		if !okSite {
-			for _, b := range ci.Parent().Blocks {
-				if b == ci.Block() || !b.Dominates(ci.Block()) {
-					continue
-				}
-				for _, in := range b.Instrs {
-					if call, ok := in.(*ssa.Call); ok && calleeName(&call.Call) == pkgERSCond+".UpdateExtendedDaemonSetReplicaSetStatusCondition" {
-						t, _ := condTypeConst(call)
-						st, _ := constString(call.Call.Args[3])
-						if t == rt && rt != "" && st == "True" {
-							okSite = true
-						}
-					}
-				}
+			if !allPathsEndE(site.target(), site.env, "NewStatus") {
+				continue
+			}
+			// right before the strategy: earlier in the same block, or in a dominating block
+			ob := site.outer.Block()
+			if ob == ci.Block() && instrIndex(site.outer) < instrIndex(ci) || ob != ci.Block() && ob.Dominates(ci.Block()) {
+				okSite = true
 			}
 		}
 		found = okSite
@@ -1387,25 +1468,36 @@ func c06Wire(c *c06Ctx, reach map[*ssa.Function]bool) {
 		r.Fatal("anchor %s.UpdateExtendedDaemonSetReplicaSetStatusCondition not found", pkgERSCond)
 		return
 	}
-	ff := computeFacts(upd)
+	// existing conditions are updated in the helper itself or in a function it delegates to
 	okAll, detail, nst := true, "", 0
-	for _, st := range storesTo(upd, "LastTransitionTime") {
-		if _, isIdx := func() (ssa.Value, bool) {
-			root, _ := accessPath(st.Addr)
-			_, isI := root.(*ssa.IndexAddr)
-			return root, isI
-		}(); !isIdx {
-			continue // a freshly built condition, not an existing one
+	for _, fn := range sortedFuncs(r.Prog.reachableFuncs(upd)) {
+		sts := storesToFieldOf(fn, pkgAPI, "ExtendedDaemonSetReplicaSetCondition", "LastTransitionTime")
+		if len(sts) == 0 {
+			continue
 		}
-		nst++
-		changed := ff.Holds(st.Block(), false, func(v ssa.Value, _ string) bool {
-			return isEqCompare(v, loadOfPath(nil, "Status"), func(x ssa.Value) bool {
-				p, isP := stripConv(x).(*ssa.Parameter)
-				return isP && typeName(p.Type()) == pkgCoreV1+".ConditionStatus"
+		ff := computeFacts(fn)
+		k := newKeyer(fn)
+		for _, st := range sts {
+			root, _ := accessPath(st.Addr)
+			switch root.(type) {
+			case *ssa.IndexAddr, *ssa.Parameter: // an element of status.Conditions, or an existing condition handed in by pointer
+			default:
+				continue // a freshly built condition
+			}
+			nst++
+			rk := k.key(root)
+			changed := ff.Holds(st.Block(), false, func(v ssa.Value, _ string) bool {
+				return isEqCompare(v, func(x ssa.Value) bool {
+					xr, xp := accessPath(stripConv(x))
+					return len(xp) == 1 && xp[0] == "Status" && k.key(xr) == rk
+				}, func(x ssa.Value) bool {
+					p, isP := stripConv(x).(*ssa.Parameter)
+					return isP && typeName(p.Type()) == pkgCoreV1+".ConditionStatus"
+				})
 			})
-		})
-		if !changed {
-			okAll, detail = false, "LastTransitionTime of an existing condition is stored without the fact existing.Status != new status"
+			if !changed {
+				okAll, detail = false, "LastTransitionTime of an existing condition is stored in "+shortFunc(fn)+" without the fact existing.Status != new status"
+			}
 		}
 	}
 	if nst == 0 {
@@ -1418,28 +1510,31 @@ func c06Wire(c *c06Ctx, reach map[*ssa.Function]bool) {
 // c06ConditionTypesRead lists the replica-set condition types a reader consults on the paths where
 // its first result can be true through a condition (IsConditionTrue fact true).
 func c06ConditionTypesRead(r *Run, fn *ssa.Function) ([]string, bool) {
-	paths, _, ok := funcPaths(fn, 5000)
+	paths, k, ok := funcPaths(fn, 5000)
 	r.paths += len(paths)
 	if !ok {
 		return nil, false
 	}
 	set := map[string]bool{}
 	for _, p := range paths {
-		for _, f := range p.Facts {
-			call, isC := f.V.(*ssa.Call)
-			if !isC || !f.Pol || calleeName(&call.Call) != pkgERSCond+".IsConditionTrue" {
+		ret := returnOf(p.Blocks[len(p.Blocks)-1])
+		res := p.Resolve(ret.Results[0])
+		facts := factList(p.Facts)
+		if b, isB := constBool(res); isB {
+			if !b {
 				continue
 			}
-			ret := returnOf(p.Blocks[len(p.Blocks)-1])
-			res := p.Resolve(ret.Results[0])
-			if b, isB := constBool(res); isB && !b {
+		} else {
+			facts = append(facts, k.normCond(res, true)...) // `return a && cond(...)`: true means the returned expression holds
+		}
+		for _, a := range condTrueAtoms(facts) {
+			if a.val != triTrue {
 				continue
 			}
-			if t, okT := condTypeConst(call); okT {
-				set[t] = true
-			} else {
+			if a.typ == "" {
 				return nil, false
 			}
+			set[a.typ] = true
 		}
 	}
 	var out []string
@@ -1565,36 +1660,58 @@ func c06StatusLists(r *Run) {
 			r.Fatal("anchor %s.%s(pod) not found", pkgPodUtils, name)
 			continue
 		}
-		pod := ssa.Value(fn.Params[0])
-		// the container-status slices the helper iterates
-		iter := map[ssa.Value]bool{}
-		for _, b := range fn.Blocks {
-			for _, in := range b.Instrs {
-				var x ssa.Value
-				switch y := in.(type) {
-				case *ssa.IndexAddr:
-					x = y.X
-				case *ssa.Index:
-					x = y.X
-				case *ssa.Range:
-					x = y.X
-				}
-				if x == nil {
-					continue
-				}
-				if sl, ok := x.Type().Underlying().(*types.Slice); ok && typeName(sl.Elem()) == pkgCoreV1+".ContainerStatus" {
-					iter[x] = true
+		// the container-status slices the helper iterates, itself or in a repository function it hands the pod to
+		type iteration struct {
+			x   ssa.Value
+			pod ssa.Value
+			fn  *ssa.Function
+		}
+		var iters []iteration
+		var collect func(g *ssa.Function, pod ssa.Value, depth int, seen map[*ssa.Function]bool)
+		collect = func(g *ssa.Function, pod ssa.Value, depth int, seen map[*ssa.Function]bool) {
+			if seen[g] || depth > 3 {
+				return
+			}
+			seen[g] = true
+			found := map[ssa.Value]bool{}
+			for _, b := range g.Blocks {
+				for _, in := range b.Instrs {
+					var x ssa.Value
+					switch y := in.(type) {
+					case *ssa.IndexAddr:
+						x = y.X
+					case *ssa.Index:
+						x = y.X
+					case *ssa.Range:
+						x = y.X
+					case ssa.CallInstruction:
+						if h := staticCallee(y.Common()); h != nil && r.Prog.IsRuleSite(h) {
+							for ai, a := range y.Common().Args {
+								if stripConv(a) == pod && ai < len(h.Params) {
+									collect(h, h.Params[ai], depth+1, seen)
+								}
+							}
+						}
+					}
+					if x == nil || found[x] {
+						continue
+					}
+					if sl, ok := x.Type().Underlying().(*types.Slice); ok && typeName(sl.Elem()) == pkgCoreV1+".ContainerStatus" {
+						found[x] = true
+						iters = append(iters, iteration{x, pod, g})
+					}
 				}
 			}
 		}
+		collect(fn, fn.Params[0], 0, map[*ssa.Function]bool{})
 		pos := r.Prog.Pos(fn.Pos())
-		if len(iter) == 0 {
+		if len(iters) == 0 {
 			r.Check("C06.R10", "container statuses examined", pos, shortFunc(fn), "the helper iterates a list of the pod's container statuses", false, "no iteration over []ContainerStatus found")
 			continue
 		}
 		okAll, detail := true, ""
-		for x := range iter {
-			got := c06MustStatusLists(r.Prog, x, pod, 0, map[ssa.Value]bool{})
+		for _, it := range iters {
+			got := c06MustStatusLists(r.Prog, it.x, it.pod, 0, map[ssa.Value]bool{})
 			var missing []string
 			for _, w := range want {
 				if !got[w] {
@@ -1603,7 +1720,7 @@ func c06StatusLists(r *Run) {
 			}
 			if len(missing) > 0 {
 				okAll = false
-				detail = "the iterated list is not guaranteed to contain " + strings.Join(missing, ", ")
+				detail = "the list iterated in " + shortFunc(it.fn) + " is not guaranteed to contain " + strings.Join(missing, ", ")
 			}
 		}
 		r.Check("C06.R10", "container statuses examined", pos, shortFunc(fn),
@@ -1776,50 +1893,41 @@ func failedConditionWrites(r *Run, rule string) {
 		return allPathsEnd(v, "ReplicaSetStatus") || (isNamedType(v.Type(), pkgStrategy, "ReplicaSetStatus") && dependsOn(v, func(x ssa.Value) bool { return allPathsEnd(x, "ReplicaSetStatus") }))
 	}
 	n := 0
-	for _, fn := range sortedFuncs(r.Prog.reachableFuncs(rec)) {
-		var ff *FuncFacts
-		for _, ci := range callsIn(fn) {
-			call, ok := ci.(*ssa.Call)
-			if !ok || calleeName(&call.Call) != pkgERSCond+".UpdateExtendedDaemonSetReplicaSetStatusCondition" || len(call.Call.Args) < 4 {
-				continue
-			}
-			t, okT := condTypeConst(call)
-			pos := r.Prog.Pos(call.Pos())
-			if !okT {
-				r.Undecided(rule, "condition write with a computed type", pos, shortFunc(fn), "the condition type is not a constant, it may be "+w.typ)
-				continue
-			}
-			if t != w.typ {
-				continue
-			}
-			n++
-			if call == w.call {
-				r.Check(rule, w.typ+" written from IsFailed", pos, shortFunc(fn), "the canary strategy writes the condition from the sticky flag", true, "")
-				continue
-			}
-			st, isConst := constString(call.Call.Args[3])
-			if !isConst {
-				r.Undecided(rule, w.typ+" written with a computed status", pos, shortFunc(fn), "the status is neither a constant nor BoolToCondition(Result.IsFailed)")
-				continue
-			}
-			if st == "True" {
-				o := r.Check(rule, w.typ+"=True", pos, shortFunc(fn), "writing True never un-fails a canary", true, "")
-				o.Trivial = true
-				continue
-			}
-			if ff == nil {
-				ff = computeFacts(fn)
-			}
-			okRole := ff.AtExpanded(call.Block()).any(true, func(v ssa.Value, _ string) bool {
-				return isEqCompare(v, isRole, isConstStringVal(active))
-			})
-			detail := ""
-			if !okRole {
-				detail = "the reset is not dominated by the fact role == \"" + active + "\"; must-facts: " + shortSet(ff.At(call.Block()))
-			}
-			r.Check(rule, w.typ+"="+st+" reset", pos, shortFunc(fn),
-				"the failure verdict is reset only for the replica set that has become the active one (a failed canary turns 'unknown' once status.canary is cleared and must keep its verdict: retention, rollback retry)", okRole, detail)
+	for _, site := range condWriteSites(r.Prog.reachableFuncs(rec)) {
+		fn := site.fn()
+		pos := r.Prog.Pos(site.outer.Pos())
+		if !site.typOK {
+			r.Undecided(rule, "condition write with a computed type", pos, shortFunc(fn), "the condition type is not a constant, it may be "+w.typ)
+			continue
 		}
+		if site.typ != w.typ {
+			continue
+		}
+		n++
+		if site.call == w.call && site.env == nil {
+			r.Check(rule, w.typ+" written from IsFailed", pos, shortFunc(fn), "the canary strategy writes the condition from the sticky flag", true, "")
+			continue
+		}
+		st, isConst := constString(site.status())
+		if !isConst {
+			r.Undecided(rule, w.typ+" written with a computed status", pos, shortFunc(fn), "the status is neither a constant nor BoolToCondition(Result.IsFailed)")
+			continue
+		}
+		if st == "True" {
+			o := r.Check(rule, w.typ+"=True", pos, shortFunc(fn), "writing True never un-fails a canary", true, "")
+			o.Trivial = true
+			continue
+		}
+		ff := c06FactsOf(fn)
+		okRole := ff.AtExpanded(site.outer.Block()).any(true, func(v ssa.Value, _ string) bool {
+			return isEqCompare(v, isRole, isConstStringVal(active))
+		})
+		detail := ""
+		if !okRole {
+			detail = "the reset is not dominated by the fact role == \"" + active + "\"; must-facts: " + shortSet(ff.At(site.outer.Block()))
+		}
+		r.Check(rule, w.typ+"="+st+" reset", pos, shortFunc(fn),
+			"the failure verdict is reset only for the replica set that has become the active one (a failed canary turns 'unknown' once status.canary is cleared and must keep its verdict: retention, rollback retry)", okRole, detail)
 	}
 	if n == 0 {
 		r.Check(rule, "Canary-Failed writes", "-", "-", "the condition is written somewhere under the replica-set Reconcile", false, "none found")
@@ -1875,6 +1983,65 @@ func c06EmptyLists(facts factSet, pod ssa.Value) map[string]bool {
 		}
 		if big, small, _, ok := factOrder(f); ok && isZero(big) && lenOf(small) != "" {
 			out[lenOf(small)] = true // 0 >= len(X)
+		}
+	}
+	return out
+}
+
+// ---------------------------------------------------------------------------------------------
+// replica-set condition writes, seen through local wrappers
+
+// condWriteSite is one write of a replica-set condition as seen from the function that decides it:
+// the UpdateExtendedDaemonSetReplicaSetStatusCondition call itself, or — when the call sits in a
+// wrapper (a closure or helper whose parameters carry the type and status) — the call of the wrapper.
+type condWriteSite struct {
+	outer ssa.CallInstruction // the call in the deciding function
+	call  *ssa.Call           // the underlying condition update
+	env   *envT               // wrapper parameters bound to the outer call's arguments
+	typ   string
+	typOK bool
+}
+
+func (s condWriteSite) fn() *ssa.Function { return s.outer.Parent() }
+
+// status returns the status argument as seen at the outer call.
+func (s condWriteSite) status() ssa.Value {
+	v, _ := stripConvE(s.call.Call.Args[3], s.env)
+	return v
+}
+
+func (s condWriteSite) target() ssa.Value { return s.call.Call.Args[0] }
+
+// condWriteSites lists the condition writes inside the given functions.
+func condWriteSites(fns map[*ssa.Function]bool) []condWriteSite {
+	var out []condWriteSite
+	var expand func(outer ssa.CallInstruction, call *ssa.Call, env *envT, depth int)
+	expand = func(outer ssa.CallInstruction, call *ssa.Call, env *envT, depth int) {
+		tv, tenv := stripConvE(call.Call.Args[2], env)
+		if t, ok := constString(tv); ok {
+			out = append(out, condWriteSite{outer: outer, call: call, env: env, typ: t, typOK: true})
+			return
+		}
+		// the type is a parameter of the enclosing wrapper: instantiate at the wrapper's call sites
+		if p, isP := tv.(*ssa.Parameter); isP && tenv == env && depth < 3 {
+			w := p.Parent()
+			cs := callSitesOf(w, fns)
+			if len(cs) > 0 {
+				for _, c := range cs {
+					expand(c, call, bindArgs(w, c.Common().Args, env), depth+1)
+				}
+				return
+			}
+		}
+		out = append(out, condWriteSite{outer: outer, call: call, env: env})
+	}
+	for _, fn := range sortedFuncs(fns) {
+		for _, ci := range callsIn(fn) {
+			call, ok := ci.(*ssa.Call)
+			if !ok || calleeName(&call.Call) != pkgERSCond+".UpdateExtendedDaemonSetReplicaSetStatusCondition" || len(call.Call.Args) < 8 {
+				continue
+			}
+			expand(call, call, nil, 0)
 		}
 	}
 	return out
